@@ -9,6 +9,7 @@
 #include <hdf5.h>
 #include <climits>
 #include <fstream>
+#include <sys/time.h>
 #include "vf.hpp"
 
 using namespace nix;
@@ -28,7 +29,12 @@ static std::string slurp(const std::string &a) {
     std::stringstream ss; ss << in.rdbuf(); return ss.str();
 }
 
-static bool set_version_attr(const std::string &path, const V3 &v) {
+// the modification time of a planted file is part of the environment the harness owns: every planted file carries the same one
+static void fix_mtime(const std::string &path) { struct timeval tv[2] = {{1500000000, 0}, {1500000000, 0}}; utimes(path.c_str(), tv); }
+
+static bool set_version_attr_raw(const std::string &path, const V3 &v);
+static bool set_version_attr(const std::string &path, const V3 &v) { bool ok = set_version_attr_raw(path, v); fix_mtime(path); return ok; }
+static bool set_version_attr_raw(const std::string &path, const V3 &v) {
     hid_t f = H5Fopen(path.c_str(), H5F_ACC_RDWR, H5P_DEFAULT);
     if (f < 0) return false;
     hid_t a = H5Aopen_by_name(f, "/", "version", H5P_DEFAULT, H5P_DEFAULT);
@@ -61,6 +67,7 @@ static bool set_version_attr_typed(const std::string &path, const V3 &v, hid_t f
     if (a >= 0) H5Aclose(a);
     H5Sclose(sp);
     H5Fclose(f);
+    fix_mtime(path);
     return ok;
 }
 
@@ -197,7 +204,7 @@ int main(int argc, char **argv) {
             std::string p = vf::scratch_file("wn.h5");
             copy_file(base, p);
             bool planted = set_version_attr(p, v);
-            if (planted) { hid_t h = H5Fopen(p.c_str(), H5F_ACC_RDWR, H5P_DEFAULT); planted = h >= 0 && H5Adelete_by_name(h, "/", "id", H5P_DEFAULT) >= 0; if (h >= 0) H5Fclose(h); }
+            if (planted) { hid_t h = H5Fopen(p.c_str(), H5F_ACC_RDWR, H5P_DEFAULT); planted = h >= 0 && H5Adelete_by_name(h, "/", "id", H5P_DEFAULT) >= 0; if (h >= 0) H5Fclose(h); fix_mtime(p); }
             if (!planted) { vf::violation("C10|harness|cannot plant a file without id", vs(v)); break; }
             bool expect = force || m == FileMode::Overwrite || (m == FileMode::ReadOnly && v[0] == L[0] && v[1] <= L[1]) || (m == FileMode::ReadWrite && v == L);
             bool opened = false; V3 seen; size_t nblocks = 99; std::string what;
